@@ -11,8 +11,6 @@ REGISTRY = {
     "hex_digits_to_char": (R + "hex_digits_to_char", "value = digit(d1) * 16 + digit(d2)", {}),
     "hex_digit_lambda": (None, "digit value: A-F -> 10 + d - 'A'; a-f -> 10 + d - 'a'; else d - '0'",
                          {"enclosing": R + "hex_digits_to_char"}),
-    "string_view_to_subset": (R + "string_view_to_subset", "'.' -> all bytes; '[...]' -> listed bytes and ranges, '^' first "
-                                                           "inverts; otherwise the single decoded byte", {}),
     "char_subset_add_range": (R + "char_subset::add_range", "adds every byte from r.start to r.end inclusive (as unsigned)", {}),
     "regex_lexer_match": (L + "match", "empty input -> nothing; special byte -> its term, length 1; digit -> term 0, length 1; "
                                        "otherwise a primary (escape, set, printable byte) or nothing", {}),
@@ -102,7 +100,6 @@ _DFAB = {
     "opt": "the start accepts",
     "cat": "accepting states of s1 take over s2's start (merged), s1's accepting flags cleared",
     "alt": "s2's start merged into s1's start",
-    "rep": "n copies concatenated (n == 0: the slice itself)",
 }
 DFAB = []
 for _m, _what in _DFAB.items():
@@ -233,7 +230,7 @@ GROUPS = {
     "DFAB": DFAB,
     "DIAG": DIAG,
     "TERMAPI": TERMAPI,
-    "REGEXFE": ["regex_char", "hex_digits_to_char", "hex_digit_lambda", "string_view_to_subset", "char_subset_add_range",
+    "REGEXFE": ["regex_char", "hex_digits_to_char", "hex_digit_lambda", "char_subset_add_range",
                 "regex_lexer_match", "regex_lexer_match_primary", "regex_lexer_match_range", "regex_lexer_match_range_item",
                 "regex_lexer_match_escaped", "regex_lexer_recognized", "regex_lexer_ctor", "is_printable", "is_hex_digit",
                 "is_dec_digit", "char_to_idx", "idx_to_char"],
